@@ -973,6 +973,8 @@ class Exec:
         if ext and path.split('::')[-1] in ext:
             vn = path.split('::')[-1]
             return Enum(path.rsplit('::', 1)[0].split('::')[-1], ext.index(vn), vn, vals)
+        if not vals:
+            return Opaque('unit:' + path)
         raise Unsupported('aggregate ' + path)
 
     # ---- calls
